@@ -28,7 +28,7 @@ RULE += (
 )
 ASSUMPTIONS = [
     "BaseException failures are outside the statement ('any Exception') and are not injected here",
-    "after the runaway-recursion guard has tripped inside a nested sync call, get_active_task() is only checked again once the computation has ended",
+    "in RANDOM programs, after the runaway-recursion guard has tripped inside a nested sync call, get_active_task() is only checked again once the computation has ended (the structured 'survivor' family checks a task that catches the guard's error and goes on)",
 ]
 UNIT_TIMEOUT = {"quick": 150, "thorough": 2400}
 
@@ -107,10 +107,14 @@ def scheduler_state():
 
 def make_case(cs, rnd):
     """One computation of a history: (program, options)."""
-    kind = rnd.choice(["plain", "plain", "ctxfault", "ctxfault", "before", "runaway", "runaway", "nonasync", "evilflush", "closefail"])
+    kind = rnd.choice(["plain", "plain", "ctxfault", "ctxfault", "before", "runaway", "runaway", "nonasync", "evilflush", "closefail", "survivor"])
     opts = {"kind": kind}
     if kind == "closefail":
         return closefail_program(rnd), opts
+    if kind == "survivor":
+        prog = gen.survivor_program(rnd)
+        opts["max_stack"] = prog["max_stack"]
+        return prog, opts
     if kind == "nonasync":
         prog = gen.generate(cs, PROFILE_NA)
     else:
@@ -264,6 +268,8 @@ def run_unit(unit, progress):
             inc("active_task_checks_in_scheduler_run_code", getattr(rt, "n_stale_active_checks", 0))
             inc("after_sync_checks", getattr(rt, "n_after_sync", 0))
             inc("sync_calls_made_by_bodies_whose_task_was_already_over", getattr(rt, "n_zombie_bodies", 0))
+            if opts["kind"] == "survivor":
+                inc("tasks_going_on_after_surviving_the_recursion_guard", sum(1 for ev in rt.log if ev[0] == "sync_exit" and ev[2][-1:] in (("sv_s2",), ("sv_s3",))))
             if opts["kind"] == "closefail" and sum(1 for ev in rt.log if ev[0] == "ctx_fault") >= 2:
                 inc("bodies_raising_while_their_generator_is_closed")
             inc("sync_waits_on_a_task_created_elsewhere", sum(1 for ev in rt.log if ev[0] == "sync_enter" and ev[2][:1] == ("S",)))
@@ -397,6 +403,7 @@ def reach(c, tier):
         "ended_by_failing_flush_call",
         "sync_waits_on_a_task_created_elsewhere",
         "bodies_raising_while_their_generator_is_closed",
+        "tasks_going_on_after_surviving_the_recursion_guard",
     ):
         if not c.get(k):
             out.append("%s is zero" % k)
